@@ -42,7 +42,7 @@ PROPS = {
             "technique": "Lean 4 proof: taxable events are a permutation of earn-IN + OUT + fee-INTRA; each event once and in full; regenerated type table",
             "text": "Theorems events_exact / events_perm / each_once_in_full; tie by Gen.Types and the engine + pipeline streams.",
             "design_ref": "DESIGN.md §3 C03"},
-    "C04": {"streams": [S("pipeline", 1200, 60000, ["figures", "status-crash"])], "rule": PIPE_RULE, "assumptions": [],
+    "C04": {"streams": [S("pipeline", 1200, 60000, ["figures", "status-crash"]), S("dec", 4000, 400000, ["value", "status"])], "rule": PIPE_RULE, "assumptions": [],
             "technique": "Lean 4: formulas stated outright on the bit-exact 31-digit decimal model, exact parts-add-to-whole, rounding-error lemmas; bit-exact differential correspondence of every figure",
             "text": "Theorems proceeds/cost/gain formulas, supplied-over-computed, parts_add_to_whole (exact), two_roundings_bound, round_half_even_err; "
                     "every proceeds/cost/gain figure of generated histories is compared with the model as an exact rational, and with exact Fraction arithmetic by the oracle.",
